@@ -375,10 +375,13 @@ SEQ_SCALARS = {"full": {"mul": [["int", -1], ["float", 0.5], ["int", 0]], "rmul"
                "reduced": {"mul": [["int", -1], ["float", 0.5]], "rmul": [["f64", 3]], "div": [["float", 1 / 3], ["i64", 2]]}}
 
 
-def explore(cls, ops, x, X, depth, path, getdata, check_meta, desc, counter):
+def explore(cls, ops, x, X, depth, path, getdata, check_meta, desc, counter, isolate=False):
+    """every operation of the alphabet applied to the state (x real, X model), recursively to `depth`.
+    isolate: give every operation its own deep copy of the state (K results merge their chunks when `.data` is read,
+    e.g. by '-', so that later operations would not see the chunked state any more)"""
     for name, (fr, fm) in ops.items():
         try:
-            y = fr(x)
+            y = fr(copy.deepcopy(x) if isolate else x)
         except Exception as e:
             return fail(f"{cls}.{name.split('[')[0]}:raises:{type(e).__name__}",
                         f"{desc}: sequence {path + [name]} raised {type(e).__name__}: {e}")
@@ -392,9 +395,19 @@ def explore(cls, ops, x, X, depth, path, getdata, check_meta, desc, counter):
         if m:
             return fail(f"{cls}.{name.split('[')[0]}:meta", f"{desc}: after sequence {path + [name]}: {m}")
         if depth > 1:
-            r = explore(cls, ops, y, Y, depth - 1, path + [name], getdata, check_meta, desc, counter)
+            r = explore(cls, ops, y, Y, depth - 1, path + [name], getdata, check_meta, desc, counter, isolate)
             if r:
                 return r
+    return None
+
+
+def explore_deepening(cls, ops, make_x, X, depth, getdata, check_meta, desc, counter, isolate=False):
+    """shortest failing sequence first: depth 1, then 2, ... (the last pass contains the earlier ones)"""
+    for d in range(1, depth + 1):
+        counter[0] = 0
+        r = explore(cls, ops, make_x(), X, d, [], getdata, check_meta, desc, counter, isolate)
+        if r:
+            return r
     return None
 
 
@@ -404,8 +417,8 @@ def run_E_seq(case, seed):
     full = case.get("ops", "full") == "full"
     ops = e_ops(f, B, class_representatives(), SEQ_SCALARS["full" if full else "reduced"], full)
     counter = [0]
-    r = explore("EnergyResult", ops, f.make(A, first=True), A, case["depth"], [], lambda y: y.data, f.check_meta, f.desc(),
-                counter)
+    r = explore_deepening("EnergyResult", ops, lambda: f.make(A, first=True), A, case["depth"], lambda y: y.data,
+                          f.check_meta, f.desc(), counter)
     if r:
         return r
     return {"ok": True, "nontrivial": True, "obs": {"ops": len(ops), "applications": counter[0]}}
@@ -445,7 +458,7 @@ def run_E_law(case, seed):
         s, d = f.make(A) + f.make(e), f.make(e) - f.make(A)
         n += 2
         if not close(s.data, A + e) or not close(d.data, e - A):
-            return fail("EnergyResult.add_sub:data", f"{desc}: impulse {np.unravel_index(j, f.shape)}")
+            return fail("EnergyResult.add_sub:data", f"{desc}: impulse {[int(i) for i in np.unravel_index(j, f.shape)]}")
     # void neutral on both sides; sum() over a list; in-place add
     a = f.make(A)
     for name, fn, Y in (("x+Void", lambda: a + VoidResult(), A), ("Void+x", lambda: VoidResult() + a, A),
@@ -539,8 +552,12 @@ def k_ops(f, B, reps, full):
         ops["y_sub"] = (lambda x: f.make(same_shape(kdata(x))) - x, lambda X: same_shape(X) - X)
 
     def add_inplace(x):
+        # the operand is split into the same chunks as x (operands with a different chunking: 'edge' K_add_chunked)
         y = copy.deepcopy(x)
-        y.add(f.make(same_shape(kdata(x))))
+        other = f.make(same_shape(kdata(x)))
+        cuts = np.cumsum([np.shape(d)[0] for d in x.data_list])[:-1]
+        other.data_list = [np.array(c) for c in np.split(other.data_list[0], cuts, axis=0)]
+        y.add(other)
         return y
     ops["add_inplace"] = (add_inplace, lambda X: X + same_shape(X))
     ops["void_add"] = (lambda x: VoidResult() + x, lambda X: X)
@@ -576,7 +593,8 @@ def run_K_seq(case, seed):
         d = kdata(y)
         return d
 
-    r = explore("KBandResult", ops, f.make(A), A, case["depth"], [], getdata, f.check_meta, f.desc(), counter)
+    r = explore_deepening("KBandResult", ops, lambda: f.make(A), A, case["depth"], getdata, f.check_meta, f.desc(), counter,
+                          isolate=True)
     if r:
         return r
     # the public .data property after a stack
@@ -615,7 +633,7 @@ def run_K_law(case, seed):
         s.add(f.make(e))
         n += 2
         if not close(d.data, e - A) or not close(s.data, A + e):
-            return fail("KBandResult.add_sub:data", f"{desc}: impulse {np.unravel_index(j, f.shape())}")
+            return fail("KBandResult.add_sub:data", f"{desc}: impulse {[int(i) for i in np.unravel_index(j, f.shape())]}")
     # void neutral
     a = f.make(A)
     for name, fn, Y in (("Void+x", lambda: VoidResult() + a, A), ("Void-x", lambda: VoidResult() - a, -A),
@@ -831,9 +849,11 @@ def run_D_seq(case, seed):
         return None
 
     if not case.get("edge"):
-        r = walk(make(XA), XA, case["depth"], [])
-        if r:
-            return r
+        for d in range(1, case["depth"] + 1):      # shortest failing sequence first
+            counter[0] = 0
+            r = walk(make(XA), XA, d, [])
+            if r:
+                return r
     if case.get("edge"):     # the void result on the right of a dictionary
         d = make(XA)
         for name, fn in (("x+Void", lambda: d + VoidResult()), ("x-Void", lambda: d - VoidResult())):
